@@ -211,14 +211,29 @@ def guarded_by(ctx, f: Func, node: ast.AST, pred: Callable[[ast.AST], Optional[b
         return False
     target = cfg.node(st)
     # an expression in the test of an `if` is evaluated before its edges: handle and/or inline
+    def pn(test):
+        r = pred(test)
+        if r is None and isinstance(test, ast.UnaryOp) and isinstance(test.op, ast.Not):
+            r2 = pn(test.operand)
+            return None if r2 is None else (not r2)
+        return r
+
     for n, s in cfg.stmt.items():
         if isinstance(s, (ast.If, ast.While)):
-            r = pred(s.test)
+            r = pn(s.test)
             if r is None:
                 # conjunction: `if a and b:` true edge establishes both
                 for cj in conjuncts(s.test):
-                    if pred(cj) is True:
+                    if pn(cj) is True:
                         r = True
+                        break
+            if r is None:
+                # disjunction: `if a or b:` false edge refutes both
+                from .astutil import disjuncts as _dj
+
+                for dj in _dj(s.test):
+                    if pn(dj) is False:
+                        r = False
                         break
             if r is None:
                 continue
